@@ -91,6 +91,8 @@ impl<'a> Oracle<'a> {
             "C18" => self.c18(&toks),
             "C16" => self.c16(&toks),
             "C13" => self.c13(&toks),
+            "C06" => self.c06(&toks),
+            "C08" => self.c08(&toks),
             "C17" => self.c17(&toks),
             _ => "SKIP".to_string(),
         }));
@@ -387,6 +389,108 @@ impl<'a> Oracle<'a> {
             _ => "SKIP".to_string(),
         }
     }
+}
+
+impl<'a> Oracle<'a> {
+    // ---------------- C06: no input makes the library panic ----------------
+    fn c06(&mut self, toks: &[&str]) -> String {
+        let t = self.t;
+        match toks {
+            ["READ", h] => {
+                let s = match unhex(h) { Some(s) => s, None => return "SKIP".to_string() };
+                let resp = imp::do_read(t, &s);
+                if resp.contains("panic") { return fail(format!("reading {:?} panics: {}", s, first_panic(&resp))) }
+                "OK".to_string()
+            }
+            ["WALK", rest @ ..] => {
+                let resp = imp::do_walk(t, rest);
+                if resp.contains("panic") { return fail(format!("traversal panics: {}", first_panic(&resp))) }
+                // building from the traversal's events, and the hydrogen queries on every atom
+                if let Some(g) = parse_graph(rest) {
+                    for (i, a) in g.iter().enumerate() {
+                        if catch_unwind(AssertUnwindSafe(|| (a.subvalence(), a.suppressed_hydrogens()))).is_err() {
+                            return fail(format!("hydrogen query panics on atom {} at {}", i, imp::last_panic()))
+                        }
+                    }
+                }
+                "OK".to_string()
+            }
+            ["EVS", rest @ ..] => {
+                let evs: Option<Vec<Ev>> = if rest.len() == 1 && rest[0] == "-" { Some(vec![]) } else { rest.iter().map(|x| Ev::parse(x)).collect() };
+                let evs = match evs { Some(e) => e, None => return "SKIP".to_string() };
+                if imp::proto_violation(&evs).is_some() { return "SKIP".to_string() } // documented panics of the followers
+                let resp = imp::do_evs(t, &evs);
+                if resp.contains("panic") { return fail(format!("a follower panics on a protocol-conformant history: {}", resp)) }
+                "OK".to_string()
+            }
+            ["VAL", k, bs] => {
+                let resp = imp::do_val(t, k, bs);
+                if resp.contains("panic") { return fail(format!("hydrogen query panics: {}", resp)) }
+                "OK".to_string()
+            }
+            _ => "SKIP".to_string(),
+        }
+    }
+
+    // ---------------- C08: event streams are protocol-conformant ----------------
+    fn c08(&mut self, toks: &[&str]) -> String {
+        let t = self.t;
+        match toks {
+            ["READ", h] => {
+                let s = match unhex(h) { Some(s) => s, None => return "SKIP".to_string() };
+                let mut rec = Rec::new(t);
+                let _ = catch_unwind(AssertUnwindSafe(|| read(&s, &mut rec, None)));
+                match imp::proto_violation(&rec.events) {
+                    None => "OK".to_string(),
+                    Some(i) => fail(format!("reading {:?}: event #{} ({}) violates the follower contract", s, i, rec.events[i].s())),
+                }
+            }
+            ["WALK", rest @ ..] => {
+                let g = match parse_graph(rest) { Some(g) => g, None => return "SKIP".to_string() };
+                let orig = parse_graph(rest).unwrap();
+                let mut rec = Rec::new(t);
+                let r = catch_unwind(AssertUnwindSafe(|| purr::walk::walk(g, &mut rec)));
+                if let Some(i) = imp::proto_violation(&rec.events) {
+                    return fail(format!("traversal event #{} ({}) violates the follower contract", i, rec.events[i].s()))
+                }
+                if let Ok(Ok(())) = r {
+                    // joins in matched pairs, one on each atom of a bond of the input graph
+                    // replay the path to know the head (as a traversal-order atom index) at every join
+                    let mut path: Vec<usize> = Vec::new();
+                    let mut natoms = 0usize;
+                    let mut open: Vec<(usize, usize, usize)> = Vec::new(); // (rnum, head, kind)
+                    let mut pairs = 0usize;
+                    for (i, e) in rec.events.iter().enumerate() {
+                        match e {
+                            Ev::Root(_) | Ev::Extend(_, _) => { path.push(natoms); natoms += 1 }
+                            Ev::Pop(d) => { for _ in 0..*d { path.pop(); } }
+                            Ev::Join(b, n) => {
+                                let head = *path.last().unwrap();
+                                if let Some(j) = open.iter().position(|(m, _, _)| m == n) {
+                                    let (_, h0, b0) = open.remove(j);
+                                    if h0 == head { return fail(format!("join event #{} closes ring number {} on the atom that opened it", i, n)) }
+                                    let rev = |k: usize| match k { 6 => 7, 7 => 6, x => x };
+                                    if rev(b0) != *b { return fail(format!("join event #{}: the two ends of ring closure {} carry kinds {} and {}", i, n, b0, b)) }
+                                    pairs += 1;
+                                } else { open.push((*n, head, *b)) }
+                            }
+                        }
+                    }
+                    if !open.is_empty() { return fail(format!("a successful traversal leaves ring closures {:?} unmatched", open.iter().map(|x| x.0).collect::<Vec<_>>())) }
+                    let bonds: usize = orig.iter().map(|a| a.bonds.len()).sum();
+                    let comps = rec.events.iter().filter(|e| matches!(e, Ev::Root(_))).count();
+                    if natoms != orig.len() { return fail(format!("a successful traversal reports {} atoms of {}", natoms, orig.len())) }
+                    if bonds != 2 * ((natoms - comps) + pairs) { return fail(format!("a successful traversal reports {} tree bonds and {} ring closures for {} half-bonds", natoms - comps, pairs, bonds)) }
+                }
+                "OK".to_string()
+            }
+            _ => "SKIP".to_string(),
+        }
+    }
+}
+
+fn first_panic(resp: &str) -> String {
+    match resp.find("panic") { Some(i) => resp[i..].split(' ').next().unwrap_or("panic").to_string(), None => String::new() }
 }
 
 /// standard valences from the property text of C17, by element symbol
